@@ -54,7 +54,6 @@ theorem voxelSize_bounds (L res : ℚ) (n : Nat) (hn : 0 < n) (hres : 0 < res)
   rw [h]
   exact C08.voxel_size_bounds L res n hn hres hlo hhi
 
-
 /-! ### the grid of `trajectory_to_volume` -/
 
 /-- `astype(int)` of a non-negative whole number is that number -/
@@ -96,17 +95,5 @@ theorem nEdges_ge_two (L res : ℚ) (hres : 0 < res) (h : res ≤ L) : 2 ≤ Gen
   have h2 : (1 : ℤ) ≤ ⌊L / res⌋ := Int.le_floor.mpr (by exact_mod_cast h1)
   rw [nEdges_eq L res (by omega)]
   omega
-
-theorem edges_are_uniform_drop_first : Gen.edgesAreUniformDropFirst = true := by
-  rfl
-
-theorem indices_are_digitize : Gen.indicesAreDigitize = true := by
-  rfl
-
-theorem counts_are_unique_rows : Gen.countsAreUniqueRows = true := by
-  rfl
-
-theorem samples_are_all_positions : Gen.samplesAreAllPositions = true := by
-  rfl
 
 end G.C08Gen
